@@ -8,6 +8,7 @@ package main
 import (
 	"bytes"
 	"fmt"
+	"github.com/TheManticoreProject/Manticore/network/smb/smb_v10/transport"
 	"io"
 	"net"
 	"sort"
@@ -70,6 +71,80 @@ func extraWorkloads(r *mon.Run, rec *recorder) {
 	hugeSends(r, rec)
 	otherPacketTypes(r, rec)
 	reconnects(r, rec)
+	factoryTransports(r, rec)
+}
+
+// factoryTransports: the transport handed out by transport.NewTransport for every spelling of
+// "nbt" frames like the one of nbt.NewNBTTransport: over loopback TCP the stream must be the
+// reference frames of the payloads accepted, and an oversize payload is refused with nothing
+// on the wire.
+func factoryTransports(r *mon.Run, rec *recorder) {
+	sizes := []int{0, 1, 5, 0xFFFF, 0x10000, 0x1FFFF}
+	over := []int{0x20000, 0x20001, 0x30000}
+	for si, spelling := range []string{"nbt", "NBT", "Nbt", "nBT", "nbT"} {
+		t := transport.NewTransport(spelling)
+		cs := map[string]any{"factory_argument": spelling}
+		if t == nil {
+			rec.Violation(si, "NewTransport:nil", sprintf("NewTransport(%q) returned nil", spelling), cs)
+			continue
+		}
+		ln, err := net.Listen("tcp4", "127.0.0.1:0")
+		if err != nil {
+			rec.Count("factory_scenarios_skipped", 1)
+			continue
+		}
+		got := make(chan []byte, 1)
+		go func() {
+			c, err := ln.Accept()
+			if err != nil {
+				got <- nil
+				return
+			}
+			b, _ := io.ReadAll(c)
+			c.Close()
+			got <- b
+		}()
+		var want []byte
+		problem := ""
+		pan, pv, st := mon.Guard(func() {
+			if err := t.Connect(net.IP{127, 0, 0, 1}, ln.Addr().(*net.TCPAddr).Port); err != nil {
+				problem = "connect"
+				return
+			}
+			for _, n := range sizes {
+				p := make([]byte, n)
+				for i := range p {
+					p[i] = byte(i*7 + n)
+				}
+				if _, err := t.Send(p); err != nil {
+					problem = sprintf("Send of %d octets refused: %v", n, err)
+					break
+				}
+				f, _ := refEncode(p)
+				want = append(want, f...)
+			}
+			for _, n := range over {
+				if _, err := t.Send(make([]byte, n)); err == nil {
+					problem = sprintf("Send of %d octets (beyond the 17-bit length) accepted", n)
+				}
+			}
+			t.Close()
+		})
+		ln.Close()
+		wire := <-got
+		rec.Eval(len(sizes) + len(over))
+		switch {
+		case pan:
+			rec.Violation(si, "NewTransport:panic", sprintf("panic %v at %s", pv, mon.TopLibFrame(st)), cs)
+		case problem == "connect":
+			rec.Count("factory_scenarios_io_error", 1)
+		case problem != "":
+			rec.Violation(si, "NewTransport:framing:refusal", sprintf("transport from NewTransport(%q): %s", spelling, problem), cs)
+		case !bytes.Equal(wire, want):
+			rec.Violation(si, "NewTransport:framing:wire", sprintf("transport from NewTransport(%q) put %d octets on the wire, the session frames of the accepted payloads are %d octets (first difference at %d)", spelling, len(wire), len(want), firstDiff(wire, want)), cs)
+		}
+		rec.Nontrivial("factory|" + spelling)
+	}
 }
 
 // hugeSends: payloads far beyond the 17-bit length (around multiples of 16 MiB, where the flags
